@@ -37,6 +37,9 @@ def gen_graph(rng, nclasses=None, ninst=None, nprops=None, bnodes=True, maxcard=
                 if r < 0.4:
                     if langs and rng.random() < 0.25:
                         o = L('v%d' % rng.randint(0, 3), XSD + 'string', rng.choice(['en', 'es-ES']))
+                    elif rng.random() < 0.08:
+                        # a plain string whose text is the address (or label) of a node of the graph: still a literal
+                        o = L(rng.choice(nodes)[1], XSD + 'string')
                     else:
                         o = L('v%d' % rng.randint(0, 3), rng.choice(DTS))
                 elif r < 0.8:
